@@ -82,7 +82,7 @@ class Slave(logging_utils.LoggableMixin):
         self._port: int = port
         self._path: str = path
         self._poll_interval: int = poll_interval
-        self._listen_enabled: bool = listen_enabled
+        self._listen_enabled: bool = bool(listen_enabled)  # not stated (None) is off: GET /devices must answer a boolean
 
         if admin_password is not None:
             self._admin_password_hash: str = hashlib.sha256(admin_password.encode()).hexdigest()
